@@ -289,6 +289,11 @@ def correspond(ctx):
 
     treat_facts = ((ctx.extracted.get('Treat_syphilis') or {}).get('facts') or {}).get('products', {}).get('bpg')
     cfgs = plan(ctx, 2, 8, small=not ctx.thorough)
+    # the shared scenario zoo: the recorder and the per-agent model follow any run of the eight diseases (entries with another
+    # disease type - `ncd` - or with none have no modelled method call to compare)
+    zoo_names = {}
+    for zname, zcfg in zoo_entries(ctx):
+        zoo_names[id(zcfg)] = zname; cfgs.append(zcfg)
     nrun = 0
     for cfg in cfgs:
         ds = [d['type'] for d in cfg['diseases']]
@@ -304,10 +309,14 @@ def correspond(ctx):
                 ctx.broke('correspondence', 'C13.probe', '; '.join(sorted(set(rec.errors))[:4]), data=dict(cfg=cfg))
         except Exception as e:
             import traceback
+            if id(cfg) in zoo_names:      # a harness exception on a zoo entry does not fail the check
+                ctx.count('zoo_exceptions'); ctx.notes['last_zoo_exception'] = f'correspond {zoo_names[id(cfg)]}: {type(e).__name__}: {e}'
+                continue
             ctx.broke('correspondence', 'C13.run', f'recorded run raised {type(e).__name__}: {e}\n{traceback.format_exc()[-1500:]}', data=dict(cfg=cfg))
             continue
         nrun += 1
         ctx.count('corr_sims')
+        if id(cfg) in zoo_names: ctx.count('zoo_corr_runs')
     # compare with the model
     keys = sorted(table)
     lines = [f'{n} {m} {b} {g}' for n, m, b, g in keys]
@@ -661,17 +670,28 @@ def oracle_run(cfg, max_fail=40):
         exp = np.array([len(ev.get(t, ())) for t in range(npts)])
         got = np.asarray(dis.results.new_infections.values if hasattr(dis.results.new_infections, 'values') else dis.results.new_infections, dtype=float)
         cum = np.asarray(dis.results.cum_infections.values if hasattr(dis.results.cum_infections, 'values') else dis.results.cum_infections, dtype=float)
-        if not np.array_equal(got, exp):
+        # reported results stand for the SCALED population: finalize multiplies every `scale=True` result by pars.pop_scale
+        # (= total_pop / n_agents); one infection event of an agent is reported as pop_scale infections.  Float product: rtol 1e-12.
+        scale = 1.0
+        try:
+            if getattr(dis.results.new_infections, 'scale', False) and sim.pars.pop_scale is not None:
+                scale = float(sim.pars.pop_scale)
+        except Exception:
+            scale = 1.0
+        same = (lambda a, b: np.array_equal(a, b)) if scale == 1.0 else (lambda a, b: a.shape == b.shape and np.allclose(a, b, rtol=1e-12, atol=0))
+        exps = exp * scale; cums = np.cumsum(exp) * scale
+        sc = f' (x pop_scale {scale:g})' if scale != 1.0 else ''
+        if not same(got, exps):
             # undercount because set_prognoses left ti_infected at another (future) time, or any other mismatch
-            pattern = 'future-ti-infected' if (not_now.get(nm, 0) > 0 and got.sum() <= exp.sum()) else 'mismatch'
-            t = int(np.flatnonzero(got != exp)[0])
+            pattern = 'future-ti-infected' if (not_now.get(nm, 0) > 0 and got.sum() <= exps.sum()) else 'mismatch'
+            t = int(np.flatnonzero(~np.isclose(got, exps, rtol=1e-12, atol=0))[0]) if got.shape == exps.shape else 0
             fail(dict(oracle='new-infections', disease=dn, pattern=pattern),
-                 f'{dn}: new_infections differs from the number of infection events (set_prognoses calls): first at ti={t}: recorded {got[t]:g}, '
-                 f'events {exp[t]}; totals recorded {got.sum():g} vs {exp.sum()} events', ti=t)
-        elif not np.array_equal(cum, np.cumsum(exp)):
-            t = int(np.flatnonzero(cum != np.cumsum(exp))[0])
+                 f'{dn}: new_infections differs from the number of infection events (set_prognoses calls){sc}: first at ti={t}: recorded {got[t]:g}, '
+                 f'events {exp[t] if t < len(exp) else "-"}; totals recorded {got.sum():g} vs {exp.sum()} events', ti=t)
+        elif not same(cum, cums):
+            t = int(np.flatnonzero(~np.isclose(cum, cums, rtol=1e-12, atol=0))[0]) if cum.shape == cums.shape else 0
             fail(dict(oracle='cum-infections', disease=dn),
-                 f'{dn}: cum_infections[{t}]={cum[t]:g} but {np.cumsum(exp)[t]} infection events happened up to that step', ti=t)
+                 f'{dn}: cum_infections[{t}]={cum[t]:g} but {np.cumsum(exp)[t]} infection events{sc} happened up to that step', ti=t)
         if SPEC[dn]['permanent'] and ever.get(nm) and not any(b == S for a, b in extra_arrows.get(nm, ())):
             allu = np.concatenate(ever[nm])
             if len(np.unique(allu)) != len(allu):
@@ -707,6 +727,29 @@ def search(ctx):
         ctx.count('oracle_sims'); ctx.count('oracle_steps', info['steps']); ctx.count('oracle_infection_events', sum(info['events'].values()))
         for f in fails:
             ctx.fail(f['signature'], f['what'], dict(kind='sim', cfg=cfg, signature=f['signature'], where=f['where']))
+    search_zoo(ctx)
+
+
+def zoo_entries(ctx):
+    """ every entry of the shared scenario zoo; none is skipped: entries without one of the eight compartmental diseases
+        (`killer-only`, `ncd`) simply give the oracle nothing to check (NCD is not a compartmental infection: no susceptible /
+        infected partition is declared for it) """
+    from harness import zoo
+    return zoo.configs()
+
+
+def search_zoo(ctx):
+    """ all oracles of `oracle_run` (partition at every snapshot and module step, dead hold none, arrows, timers, new / cum
+        infections = events = distinct agents) over every zoo entry, on every run """
+    for name, cfg in zoo_entries(ctx):
+        try:
+            fails, info = oracle_run(cfg)
+        except Exception as e:
+            ctx.count('zoo_exceptions'); ctx.notes['last_zoo_exception'] = f'{name}: {type(e).__name__}: {e}'
+            continue
+        ctx.count('zoo_runs'); ctx.count('oracle_steps', info['steps']); ctx.count('oracle_infection_events', sum(info['events'].values()))
+        for f in fails:
+            ctx.fail(f['signature'], f'[zoo:{name}] ' + f['what'], dict(kind='sim', cfg=cfg, signature=f['signature'], where=f['where'], zoo=name))
 
 
 def replay(ctx, data):
